@@ -87,7 +87,11 @@ LEVEL_NOTE = ('Trusted: Lean kernel; harness (progen.py generator/renderer/refer
               '(function values do not cross the wire): oracle = the reading Ref of each execution. Stream scale runs size ladders '
               '(call depth, iterations, chain length, label numbers, nesting) on a thread with a 512 MB stack - stack headroom is a '
               'host configuration - against Ref, closed forms and, up to size 129, the Lean machine. Runs that END WITH A RUNTIME ERROR '
-              '(undefined function) are compared with the reading too: log and globals up to the failing call, arguments first.')
+              '(undefined function) are compared with the reading too: log and globals up to the failing call, arguments first. '
+              'Streams keyword-names and endings (identifiers that begin with / contain / equal but for case / equal a statement keyword in '
+              'every line-leading position; the return value for every way a statement list can end) run through the same model '
+              'comparisons; the plain reading execS is not asked for programs with labels (outside ProgOK), their oracle is Ref, in which '
+              'a label is a no-op.')
 
 
 def known_f7(w):
@@ -257,6 +261,8 @@ def streams(ctx):
     del call_models
     stream_sessions(ctx, parser, cases, call_cases)
     stream_scale(ctx, parser)
+    stream_keyword_names(ctx, parser, cases, call_cases)
+    stream_endings(ctx, parser)
 
 
 def parse_generated(ctx, parser, text, g=None):
@@ -312,9 +318,10 @@ def _w_input(text, g, prog):
     return inp
 
 
-def exec_stream(ctx, name, cases, models, rule, nontrivial, own_ref=False):
+def exec_stream(ctx, name, cases, models, rule, nontrivial, own_ref=False, reading=None):
     """Run every case on the implementation, on the Lean jump machine (lowered code), on the Lean ticked structured semantics and on the
-    plain source-level reading; the property's own oracle is the independent Python big-step reading.  -> implementation outcomes"""
+    plain source-level reading; the property's own oracle is the independent Python big-step reading (`reading` replaces progen's
+    where the programs contain labels, which progen's reading has no case for).  -> implementation outcomes"""
     suffix = '' if name == 'exec' else '-' + name
     st = ctx.stream(name, rule)
     impls = [progen.run_impl(model, g, max_statements=400) for (prog, g, _), model in zip(cases, models)]
@@ -326,7 +333,9 @@ def exec_stream(ctx, name, cases, models, rule, nontrivial, own_ref=False):
         reqs.append({'op': 'exec', 'script': progen.canon_script(model), 'globals': wg, 'max': 400, 'fuel': 5000})
         reqs.append({'op': 'execT', 'prog': prog, 'globals': wg, 'max': 400, 'fuel': 5000})
         # the pure reading has no statement budget: only ask for it when the implementation run completed (<= 400 statements)
-        pure = 'error' not in impl and 'hostexc' not in impl and not progen.has_while_continue(prog)
+        # ... and no label either: the plain reading execS is defined on ProgOK programs (no raw labels / jumps); jump machine and
+        # ticked semantics run labels
+        pure = 'error' not in impl and 'hostexc' not in impl and not progen.has_while_continue(prog) and 'label' not in ident_kinds(prog)
         if pure:
             reqs.append({'op': 'execS', 'prog': prog, 'globals': wg, 'fuel': 1200})
         slot.append((base, pure))
@@ -353,9 +362,9 @@ def exec_stream(ctx, name, cases, models, rule, nontrivial, own_ref=False):
         # the property's own oracle: structured reading vs implementation
         if 'error' not in impl and 'hostexc' not in impl:
             got = progen.strip_hidden(impl)
-            ref = progen.run_reference(prog, g)
+            ref = (reading or progen.run_reference)(prog, g)
             if ref is not None and ref != got:
-                ref7 = progen.run_reference(prog, g, f7_quirk=True) if progen.has_while_continue(prog) else None
+                ref7 = (reading or progen.run_reference)(prog, g, f7_quirk=True) if progen.has_while_continue(prog) else None
                 ctx.witness('structured-reading', _w_input(text, g, prog), ref, got,
                             explained_by_f7=(ref7 is not None and ref7 == got))
             elif own_ref:
@@ -374,6 +383,11 @@ def exec_stream(ctx, name, cases, models, rule, nontrivial, own_ref=False):
             # own call dispatch; progen's reading hands whole expressions to the implementation and would move with it)
             failing_run_oracle(ctx, text, g, prog, impl)
     return impls
+
+
+def ident_kinds(block):
+    """The roles identifiers play in a program (see ident_roles): {'func', 'var', 'label', 'bare'}"""
+    return set().union(*ident_roles(block).values()) if block else set()
 
 
 def failing_run_oracle(ctx, text, g, prog, impl):
@@ -684,6 +698,13 @@ _REF_CONTROL = (progen.RefBudget, progen._Break, progen._Continue, progen._Retur
 
 
 class Ref(progen.RefInterp):
+    def stmt(self, s, locals_):
+        if s['k'] == 'label':
+            # a label without a jump to it marks a place and does nothing: execution goes on with the next statement
+            self.step()
+            return
+        super().stmt(s, locals_)
+
     def strict(self, node, **operands):
         return self.mods['runtime'].evaluate_expression(node, self.options, operands, False)
 
@@ -2165,6 +2186,445 @@ def _brief(want, got):
     return {k: cut(want[k]) for k in keys if k in want}, {k: cut(got[k]) for k in keys if k in got}
 
 
+# ---------------------------------------------------------------------------------------------------------------------
+# keyword-names: identifiers that BEGIN WITH / CONTAIN / END WITH / EQUAL BUT FOR CASE / EQUAL a statement keyword, as function names,
+# variables, parameters, for variables and labels, in every statement position.  The statement classifier of parse_script is a cascade
+# of regular expressions over the text of a line; the generated identifier pools (f0, g, x, ...) never look like a keyword, so 'an
+# expression statement stays an expression statement' and 'control leaves only at a return statement' were never exercised.
+# endings: the RETURN VALUE for every way a script or a function body can end.
+# ---------------------------------------------------------------------------------------------------------------------
+
+STATEMENT_KEYWORDS = ['return', 'if', 'elif', 'else', 'endif', 'while', 'endwhile', 'for', 'endfor', 'in', 'break', 'continue',
+                      'function', 'endfunction', 'async', 'jump', 'jumpif', 'include', 'true', 'false', 'null']
+NAME_FORMS = ['begins-Name', 'begins-x', 'begins-digit', 'begins-underscore', 'contains', 'ends', 'Capitalized', 'UPPER', 'miXed', 'exact']
+NAME_TAILS = ['ToPool', 'Slot', 'Book', 'arrayNew', 'systemLog']
+_IDENT_CHARS = set('abcdefghijklmnopqrstuvwxyzABCDEFGHIJKLMNOPQRSTUVWXYZ0123456789_')
+
+
+def keyword_name(kw, form, tail='ToPool'):
+    return {'begins-Name': kw + tail, 'begins-x': kw + 'x', 'begins-digit': kw + '2', 'begins-underscore': kw + '_',
+            'contains': 'my' + kw + 'Of', 'ends': 'x' + kw, 'Capitalized': kw.capitalize(), 'UPPER': kw.upper(),
+            'miXed': kw[:-1] + kw[-1].upper(), 'exact': kw}[form]
+
+
+def _renamable(name):
+    return (bool(name) and set(name) <= _IDENT_CHARS and not name[0].isdigit() and name not in ('true', 'false', 'null', 'if')
+            and not name.startswith('__bareScript') and name not in fw.impl()['library'].SCRIPT_FUNCTIONS)
+
+
+def _expr_roles(e, roles):
+    (k, v), = e.items()
+    if k == 'variable':
+        roles.setdefault(v, set()).add('var')
+    elif k == 'group':
+        _expr_roles(v, roles)
+    elif k == 'unary':
+        _expr_roles(v['expr'], roles)
+    elif k == 'binary':
+        _expr_roles(v['left'], roles)
+        _expr_roles(v['right'], roles)
+    elif k == 'function':
+        roles.setdefault(v['name'], set()).add('func')
+        for a in v['args']:
+            _expr_roles(a, roles)
+
+
+def ident_roles(block, roles=None):
+    """identifier -> the roles it plays in the program: func (defined or called), var (read, assigned, parameter, for variable),
+    label, bare (a whole expression statement)"""
+    roles = {} if roles is None else roles
+    for s in block:
+        k = s['k']
+        if k == 'expr':
+            if s.get('name'):
+                roles.setdefault(s['name'], set()).add('var')
+            elif 'variable' in s['e']:
+                roles.setdefault(s['e']['variable'], set()).add('bare')
+            _expr_roles(s['e'], roles)
+        elif k == 'ret':
+            if s.get('e'):
+                _expr_roles(s['e'], roles)
+        elif k == 'if':
+            node = s
+            while node is not None:
+                if node['k'] == 'else':
+                    ident_roles(node['b'], roles)
+                    break
+                _expr_roles(node['c'], roles)
+                ident_roles(node['t'], roles)
+                node = node.get('else')
+        elif k == 'while':
+            _expr_roles(s['c'], roles)
+            ident_roles(s['b'], roles)
+        elif k == 'for':
+            roles.setdefault(s['value'], set()).add('var')
+            if s.get('index'):
+                roles.setdefault(s['index'], set()).add('var')
+            _expr_roles(s['vals'], roles)
+            ident_roles(s['b'], roles)
+        elif k == 'func':
+            roles.setdefault(s['name'], set()).add('func')
+            for a in s['args']:
+                roles.setdefault(a, set()).add('var')
+            ident_roles(s['b'], roles)
+        elif k in ('label', 'jump'):
+            roles.setdefault(s['name'], set()).add('label')
+            if s.get('c'):
+                _expr_roles(s['c'], roles)
+    return roles
+
+
+def _rename_expr(e, m):
+    (k, v), = e.items()
+    if k == 'variable':
+        return {k: m.get(v, v)}
+    if k == 'group':
+        return {k: _rename_expr(v, m)}
+    if k == 'unary':
+        return {k: {'expr': _rename_expr(v['expr'], m), 'op': v['op']}}
+    if k == 'binary':
+        return {k: {'left': _rename_expr(v['left'], m), 'op': v['op'], 'right': _rename_expr(v['right'], m)}}
+    if k == 'function':
+        return {k: {'args': [_rename_expr(a, m) for a in v['args']], 'name': m.get(v['name'], v['name'])}}
+    return copy.deepcopy(e)
+
+
+def rename_prog(block, m):
+    """The same program with its identifiers renamed by the (injective) map m - every occurrence, whatever its role."""
+    out = []
+    for s in block:
+        s = dict(s)
+        k = s['k']
+        if k == 'expr':
+            s['name'] = m.get(s['name'], s['name']) if s.get('name') else s.get('name')
+            s['e'] = _rename_expr(s['e'], m)
+        elif k == 'ret':
+            s['e'] = _rename_expr(s['e'], m) if s.get('e') else s.get('e')
+        elif k in ('if', 'elif'):
+            s['c'] = _rename_expr(s['c'], m)
+            s['t'] = rename_prog(s['t'], m)
+            if s.get('else') is not None:
+                s['else'] = rename_prog([s['else']], m)[0]
+        elif k == 'else':
+            s['b'] = rename_prog(s['b'], m)
+        elif k == 'while':
+            s['c'] = _rename_expr(s['c'], m)
+            s['b'] = rename_prog(s['b'], m)
+        elif k == 'for':
+            s['value'] = m.get(s['value'], s['value'])
+            s['index'] = m.get(s['index'], s['index']) if s.get('index') else s.get('index')
+            s['vals'] = _rename_expr(s['vals'], m)
+            s['b'] = rename_prog(s['b'], m)
+        elif k == 'func':
+            s['name'] = m.get(s['name'], s['name'])
+            s['args'] = [m.get(a, a) for a in s['args']]
+            s['b'] = rename_prog(s['b'], m)
+        elif k in ('label', 'jump'):
+            s['name'] = m.get(s['name'], s['name'])
+            if s.get('c'):
+                s['c'] = _rename_expr(s['c'], m)
+        out.append(s)
+    return out
+
+
+def name_allowed(kw, form, roles):
+    """`true` / `false` / `null` themselves keep their keyword meaning in expressions (stream programs binds them now and then; as for
+    variables they are known finding F39); a name EQUAL to a statement keyword is an unambiguous identifier only where the line cannot
+    be that statement: as a variable / parameter / for variable (`if = 1`, `for in, for in return:`, `x = return + 1`), not as the
+    function of a call statement, a label or a bare expression statement."""
+    if form != 'exact':
+        return True
+    return kw not in ('true', 'false', 'null') and roles <= {'var'}
+
+
+def choose_names(prog, rng, p=0.8, fixed=None):
+    """-> injective map identifier -> keyword-like name for about p of the program's own identifiers (`fixed`: given in advance)"""
+    roles = ident_roles(prog)
+    m = dict(fixed or {})
+    taken = set(roles) | set(m.values())
+    funcs = sorted(n for n, r in roles.items() if 'func' in r)
+    for name in sorted(roles):
+        if name in m or not _renamable(name) or rng.random() >= p:
+            continue
+        for _ in range(8):
+            kw, form = rng.choice(STATEMENT_KEYWORDS), rng.choice(NAME_FORMS)
+            new = keyword_name(kw, form, rng.choice(NAME_TAILS + funcs))
+            if name_allowed(kw, form, roles[name]) and new not in taken and _renamable(new):
+                m[name] = new
+                taken.add(new)
+                break
+    return m
+
+
+def _note_def():
+    return _func('zNote', ['zTag', 'zVal'], [_log(S('note '), V('zTag')), _ret(V('zVal'))])
+
+
+def _note_call(rng, counter, bare_ok=True):
+    counter[0] += 1
+    if bare_ok and rng.random() < 0.2:
+        return _do(V('zNote'))          # a bare-variable statement: the function value is computed and dropped
+    return _do(C('zNote', S(f'k{counter[0]}'), rng.choice([N(rng.randint(1, 9)), S('s'), C('arrayNew', N(counter[0])), V('true')])))
+
+
+def inject_calls(block, rng, counter, p=0.3):
+    """Expression statements that are calls of a script function with a NON-NULL value (made for the effect: it logs), at random
+    places of every block - first, in the middle, last - of the main program, of loop bodies, branches and function bodies."""
+    out = []
+    for s in block:
+        s = dict(s)
+        k = s['k']
+        if k == 'if':
+            node = s
+            node['t'] = inject_calls(node['t'], rng, counter, p)
+            while node.get('else') is not None:
+                e = dict(node['else'])
+                node['else'] = e
+                if e['k'] == 'else':
+                    e['b'] = inject_calls(e['b'], rng, counter, p)
+                    break
+                e['t'] = inject_calls(e['t'], rng, counter, p)
+                node = e
+        elif k in ('while', 'for', 'func'):
+            s['b'] = inject_calls(s['b'], rng, counter, p)
+        out.append(s)
+    if rng.random() < p:
+        out.insert(rng.randint(0, len(out)), _note_call(rng, counter))
+    return out
+
+
+def names_template():
+    """Every statement position once: call statements of two functions (one returns a value) at top level, in a for body, a while
+    body, each branch of an if chain and inside a function body (before an early return, and as the last statement); assignment
+    targets, conditions, for value and index variables, parameters.  The function names zF / zG are ALSO the names of labels (labels
+    are a name space of their own) and stand as bare-variable expression statements (the function value is computed and dropped):
+    one keyword-like name meets every place where an identifier starts a line."""
+    return [
+        _func('zG', ['zP'], [_ret(B('+', V('zP'), N(1)))]),
+        _func('zF', ['zP', 'zQ'], [
+            _do(C('arrayPush', V('zP'), V('zQ'))),
+            {'k': 'label', 'name': 'zF'},
+            _do(C('zG', N(1))),
+            _do(V('zG')),
+            _log(S('F '), V('zQ')),
+            _if(B('==', V('zQ'), S('early')), [_do(C('zG', N(2))), _ret(S('early'))]),
+            _do(C('zG', N(3)))]),
+        _set('zV', C('arrayNew')), _set('zW', N(0)),
+        _do(C('zF', V('zV'), S('top'))), _log(S('after top')),
+        _set('zX', C('zF', V('zV'), S('early'))), _log(S('early gives '), V('zX')),
+        _set('zX', C('zF', V('zV'), S('late'))), _log(S('late gives '), C('systemType', V('zX'))),
+        _for('zX', 'zI', C('arrayNew', N(5), N(1), N(0)), [
+            _do(C('zF', V('zV'), V('zX'))),
+            _set('zW', B('+', V('zW'), V('zI'))),
+            {'k': 'if', 'c': B('==', V('zX'), N(5)), 't': [_do(C('zF', V('zV'), S('if'))), _log(S('t'))],
+             'else': {'k': 'elif', 'c': V('zX'), 't': [_do(C('zG', V('zX'))), _do(C('zF', V('zV'), S('elif')))],
+                      'else': {'k': 'else', 'b': [_do(C('zF', V('zV'), S('else'))), _do(V('zF')), _log(S('e'))]}}}]),
+        _while(B('<', V('zW'), N(5)), [_do(C('zG', V('zW'))), _do(V('zF')), _set('zW', B('+', V('zW'), N(1)))]),
+        {'k': 'label', 'name': 'zG'},
+        _do(V('zF')),
+        _log(S('end '), V('zW')),
+        _ret(C('arrayLength', V('zV')))]
+
+
+TEMPLATE_FUNCS = ['zF', 'zG']
+TEMPLATE_VARS = ['zV', 'zW', 'zX', 'zI', 'zP', 'zQ']
+
+
+def template_maps(rng):
+    """One map per keyword x form: a name that is not the keyword itself is zF (function of call statements, label, bare statement);
+    the keyword itself is one of the variables (rotating: array, counter in a condition, for value, for index, parameters); the other
+    placeholders get names made of other keywords.  -> [(keyword, form, role, map)]"""
+    pool = [(kw, form) for kw in STATEMENT_KEYWORDS for form in NAME_FORMS]
+    maps = []
+    for ix, (kw, form) in enumerate(pool):
+        if not name_allowed(kw, form, {'var'}):
+            continue
+        first = TEMPLATE_VARS[ix % len(TEMPLATE_VARS)] if form == 'exact' else 'zF'
+        m = {first: keyword_name(kw, form, rng.choice(NAME_TAILS + ['zG']))}
+        if not _renamable(m[first]):
+            continue
+        for ph in TEMPLATE_FUNCS + TEMPLATE_VARS:
+            for _ in range(12 if ph not in m else 0):
+                kw2, form2 = rng.choice(pool)
+                new = keyword_name(kw2, form2, rng.choice(NAME_TAILS))
+                if name_allowed(kw2, form2, {'func'} if ph in TEMPLATE_FUNCS else {'var'}) and new not in m.values() and _renamable(new):
+                    m[ph] = new
+                    break
+        maps.append((kw, form, 'var' if form == 'exact' else 'func-label-bare', m))
+    return maps
+
+
+def gen_name_cases(ctx, cases, call_cases):
+    rng = ctx.rng('keyword-names')
+    # (1) the template: every keyword x form, in rotating positions
+    for kw, form, role, m in template_maps(rng):
+        prog = progen.assign_fids(rename_prog(names_template(), m))
+        yield prog, {}, {'template': 1, 'kw-' + kw: 1, 'form-' + form: 1, 'as-' + role: 1, 'renamed': len(m), 'label': 1}
+    # (2) generated programs (Gen2, CallGen) with their own identifiers renamed and call statements of a value-returning script
+    # function injected into every kind of block; now and then the final `return` is dropped and such a call is the last statement
+    pool = [(prog, g, stats) for prog, g, stats in list(cases[3:]) + list(call_cases[2:])]
+    for _ in range(ctx.scale(110, 1500)):
+        prog, g, stats = rng.choice(pool)
+        counter = [0]
+        body = inject_calls(copy.deepcopy(prog), rng, counter)
+        tags = {'generated': 1}
+        if body and body[-1]['k'] == 'ret' and rng.random() < 0.4:
+            body.pop()
+            tags['final-return-dropped'] = 1
+        if rng.random() < 0.4 or not counter[0]:
+            body.append(_note_call(rng, counter, bare_ok=False))
+            tags['call-statement-last'] = 1
+        if rng.random() < 0.15:
+            body.insert(rng.randint(0, len(body)), {'k': 'label', 'name': 'zMark'})
+            tags['label'] = 1
+        body = [_note_def()] + body
+        m = choose_names(body, rng, p=rng.choice([0.3, 0.8, 1.0]))
+        tags['renamed'] = len(m)
+        for new in m.values():
+            for kw in STATEMENT_KEYWORDS:
+                if kw in new.lower():
+                    tags['kw-' + kw] = 1
+        for k in ('if', 'while', 'for', 'calls', 'funcdef'):
+            if k in stats:
+                tags[k] = stats[k]
+        yield progen.assign_fids(rename_prog(body, m)), {m.get(k, k): v for k, v in g.items()}, tags
+
+
+def stream_keyword_names(ctx, parser, cases, call_cases):
+    name_cases, name_models = parsed_cases(ctx, parser, list(gen_name_cases(ctx, cases, call_cases)))
+    # parse level: the statement list is the lowering of the STRUCTURED program the text was printed from (reference lowering
+    # py_lower, written from the language definition) - a call statement stays an 'expr' statement whatever its function is called
+    for (prog, _, _), model in zip(name_cases, name_models):
+        want, got = expected_model(prog), progen.canon_script(model, with_fid=False)
+        if got != want:
+            _lowering_witness(ctx, '\n'.join(progen.render(prog)), want, got)
+    exec_stream(ctx, 'keyword-names', name_cases, name_models,
+                'identifiers that begin with (returnToPool, ifx, else2, endfor_), contain, end with, equal but for case (Return, BREAK, '
+                'elsE) or - variables, parameters and for variables only - equal each of the 21 statement keywords ' + ' '.join(STATEMENT_KEYWORDS) +
+                ', as function names (defined, called in expressions, called as EXPRESSION STATEMENTS), assignment targets, variables in '
+                'conditions, for value / index variables, parameters, labels and bare-variable statements: (1) a template with every '
+                'statement position (call statement at top level, in for / while bodies, in each branch of an if chain, inside a function '
+                'before an early return and as its last statement), one program per keyword x form with the name in a rotating role; (2) '
+                'programs of streams programs / calls renamed through a random injective map, with call statements of a value-returning '
+                'script function injected first / in the middle / last into every kind of block, the final return dropped now and then. '
+                'maxStatements=400: implementation vs Lean jump machine / ticked / plain semantics; oracles: parse_script(text) = reference '
+                'lowering py_lower of the structured program; the structured reading Ref (own call dispatch; a label is a no-op) incl. runs '
+                'that end with an error; non-trivial = completes and at least one identifier is keyword-like',
+                lambda stats: stats.get('renamed', 0) >= 1, reading=run_ref)
+
+
+def _nonnull(rng):
+    """A call whose value is not null (and is dropped when the call is a statement)."""
+    return rng.choice([C('arrayPush', V('xs'), N(7)), C('objectSet', V('ob'), S('k'), N(1)), C('arrayNew', N(1), N(2)), C('give', N(5)),
+                       C('giveEarly', V('xs')), C('give', C('give', N(1))), C('systemBoolean', N(1)), C('arrayLength', V('xs')),
+                       C('if', V('true'), S('yes'), S('no')), C('tr', S('v'), S('traced')), C('systemType', V('ob'))])
+
+
+def _truthy(rng):
+    return rng.choice([V('true'), B('>=', C('arrayLength', V('xs')), N(0)), V('xs'), S('s')])
+
+
+def _falsy(rng):
+    return rng.choice([V('false'), V('null'), B('<', C('arrayLength', V('xs')), N(0)), S(''), N(0)])
+
+
+ENDINGS = {
+    # falls off the end after ...
+    'assign': lambda r: [_set('r', _nonnull(r))],
+    'assign-literal': lambda r: [_set('r', N(3))],
+    'call-statement': lambda r: [_do(_nonnull(r))],
+    'call-statement-script': lambda r: [_do(C('give', S('given')))],
+    'call-statement-early-return': lambda r: [_do(C('giveEarly', V('xs')))],
+    'call-statement-null': lambda r: [_log(S('last'))],
+    'two-call-statements': lambda r: [_do(_nonnull(r)), _do(_nonnull(r))],
+    'bare-variable': lambda r: [_do(V('xs'))],
+    'bare-literal': lambda r: [_do(r.choice([N(1), S('text')]))],
+    'bare-operator': lambda r: [_do(B('+', C('arrayLength', V('xs')), N(1)))],
+    'label': lambda r: [_do(_nonnull(r)), {'k': 'label', 'name': 'fin'}],
+    'endif-taken': lambda r: [_if(_truthy(r), [_do(_nonnull(r))])],
+    'endif-not-taken': lambda r: [_do(_nonnull(r)), _if(_falsy(r), [_do(_nonnull(r))])],
+    'else-end': lambda r: [_if(_falsy(r), [_set('r', N(1))], [_do(_nonnull(r))])],
+    'elif-end': lambda r: [{'k': 'if', 'c': _falsy(r), 't': [_set('r', N(1))],
+                            'else': {'k': 'elif', 'c': _truthy(r), 't': [_do(_nonnull(r))], 'else': None}}],
+    'endwhile': lambda r: [_set('w', N(0)), _while(B('<', V('w'), N(2)), [_set('w', B('+', V('w'), N(1))), _do(_nonnull(r))])],
+    'endwhile-break': lambda r: [_while(V('true'), [_do(_nonnull(r)), {'k': 'break'}])],
+    'endwhile-never': lambda r: [_do(_nonnull(r)), _while(_falsy(r), [_do(_nonnull(r))])],
+    'endfor': lambda r: [_for('v', None, C('arrayNew', N(1), N(2)), [_do(_nonnull(r))])],
+    'endfor-index': lambda r: [_for('v', 'ix', C('arrayNew', S('a'), S('b')), [_do(C('arrayPush', V('xs'), V('ix')))])],
+    'endfor-empty': lambda r: [_do(_nonnull(r)), _for('v', None, C('arrayNew'), [_do(_nonnull(r))])],
+    'endfor-continue': lambda r: [_for('v', None, C('arrayNew', N(1), N(2)), [_do(_nonnull(r)), {'k': 'continue'}])],
+    'nested-block-ends': lambda r: [_for('v', None, C('arrayNew', N(1)), [_if(_truthy(r), [_while(V('true'), [_do(_nonnull(r)), {'k': 'break'}])])])],
+    # ... or leaves at a return statement
+    'return': lambda r: [_do(_nonnull(r)), _ret()],
+    'return-expr': lambda r: [_ret(_nonnull(r))],
+    'return-null': lambda r: [_do(_nonnull(r)), _ret(V('null'))],
+    'return-in-if': lambda r: [_if(_truthy(r), [_ret(_nonnull(r))]), _do(_nonnull(r))],
+    'return-bare-in-if': lambda r: [_if(_truthy(r), [_do(_nonnull(r)), _ret()]), _ret(S('not here'))],
+    'return-skipped': lambda r: [_if(_falsy(r), [_ret(S('not here'))]), _do(_nonnull(r))],
+    'return-in-loop': lambda r: [_for('v', 'ix', C('arrayNew', N(4), N(5), N(6)), [_if(B('==', V('v'), N(5)), [_ret(B('+', V('v'), V('ix')))]), _do(_nonnull(r))]), _ret(S('not here'))],
+    'return-bare-in-loop': lambda r: [_while(V('true'), [_do(_nonnull(r)), _ret()])],
+}
+ENDING_SCOPES = ['script', 'function', 'function-call-last', 'function-in-function']
+
+
+def ending_case(kind, scope, seed, variant):
+    """-> (program, globals, tags) - deterministic in its arguments"""
+    rng = fw.rng_for(seed, 'C01', 'endings', kind, scope, variant)
+    gen = Gen2(rng, max_depth=2, allow_func_defs=False)
+    prelude = [_func('tr', ['tag', 'v'], [_do(C('systemLog', V('tag'))), _ret(V('v'))]),
+               _func('give', ['p'], [_log(S('give '), C('systemType', V('p'))), _ret(V('p'))]),
+               _func('giveEarly', ['p'], [_for('v', None, V('p'), [_if(V('v'), [_ret(C('arrayNew', V('v')))])]), _log(S('none found'))]),
+               _func('quiet', [], [])]
+    setup = [_set('xs', C('arrayNew', N(0), N(3))), _set('ob', C('objectNew'))]
+    in_func = scope != 'script'
+    prefix = gen.block(1, False, in_func, rng.choice([0, 0, 1, 2])) if variant else []
+    body = prefix + ENDINGS[kind](rng)
+    if scope == 'script' and variant % 2:
+        # the last line of the source is the end of a function DEFINITION (definitions do not nest: script scope only)
+        body.append(_func('late', ['p'], [_ret(V('p'))]))
+    shown = [_log(S('got '), C('systemType', V('got')))]
+    if scope == 'script':
+        prog = prelude + setup + body
+    elif scope == 'function':
+        prog = prelude + setup + [_func('ending', ['p'], body), _set('got', C('ending', N(1)))] + shown + [_ret(C('arrayNew', V('got')))]
+    elif scope == 'function-call-last':
+        # functions first, a call of the main function on the last line: the value it returns is dropped, the script yields null
+        prog = prelude + setup + [_func('ending', ['p'], body), _func('main', [], [_set('got', C('ending', N(1)))] + shown + [_ret(C('arrayNew', V('got'), S('main')))]),
+                                  _do(C('main'))]
+    else:
+        prog = prelude + setup + [_func('ending', ['p'], body), _func('outer', [], [_log(S('outer')), _do(C('ending', N(1)))]),
+                                  _set('got', C('outer'))] + shown + [_do(C('ending', N(2)))]
+    g = progen.random_globals(rng)
+    tags = {'end-' + kind: 1, 'scope-' + scope: 1}
+    if variant % 3 == 2:
+        m = choose_names(prog, rng, p=0.6)
+        prog, g = rename_prog(prog, m), {m.get(k, k): v for k, v in g.items()}
+        tags['renamed'] = len(m)
+    return progen.assign_fids(prog), g, tags
+
+
+def stream_endings(ctx, parser):
+    end_cases = [ending_case(kind, scope, ctx.seed, variant) for kind in ENDINGS for scope in ENDING_SCOPES
+                 for variant in range(ctx.scale(2, 8))]
+    end_cases, end_models = parsed_cases(ctx, parser, end_cases)
+    for (prog, _, _), model in zip(end_cases, end_models):
+        want, got = expected_model(prog), progen.canon_script(model, with_fid=False)
+        if got != want:
+            _lowering_witness(ctx, '\n'.join(progen.render(prog)), want, got)
+    exec_stream(ctx, 'endings', end_cases, end_models,
+                'the RETURN VALUE for every way a statement list can end x where it ends: the last statement executed is an assignment, a '
+                'call statement with a non-null value (arrayPush / objectSet / arrayNew / a script function with a result / one that '
+                'returns from inside its loop / the lazy if / a nested call), two of them, a bare variable / literal / operator '
+                'expression, a label, the end of an if / elif / else branch (taken, not taken), of a while (condition false, break, '
+                'never entered), of a for (with index, empty array, continue), of nested blocks, a function definition - the value is '
+                'null; or a return statement: bare (null), with an expression, with null, inside an if, inside a loop, skipped. Scopes: '
+                'the script itself; a function body (value kept and shown); functions first and `main()` on the last line; a function '
+                'whose last statement calls the function. Variant 0 = the ending alone, others = behind a random prefix block; every third '
+                'with keyword-like identifiers. Implementation vs Lean machine / ticked / plain semantics; oracles: reference lowering, '
+                'structured reading Ref; non-trivial = the run completes',
+                lambda stats: True, reading=run_ref)
+
+
 def disagreement_known(d, known):
     return False
 
@@ -2179,6 +2639,16 @@ def search(ctx):
         gen = Gen2(rng, max_depth=rng.choice([3, 4, 5, 6])) if turn % 2 == 0 else CallGen(rng)
         prog = gen.program()
         g = keyword_globals(progen.random_globals(rng), rng)
+        if turn % 4 >= 2 and not progen.has_while_continue(prog):
+            # the same kinds of program with keyword-like identifiers, injected call statements and, half of the time, a call
+            # statement with a non-null value as the last statement instead of the final return
+            counter = [0]
+            prog = inject_calls(prog, rng, counter)
+            if rng.random() < 0.5:
+                prog = (prog[:-1] if prog and prog[-1]['k'] == 'ret' else prog) + [_note_call(rng, counter, bare_ok=False)]
+            prog = [_note_def()] + prog
+            m = choose_names(prog, rng, p=0.8)
+            prog, g = progen.assign_fids(rename_prog(prog, m)), {m.get(k, k): v for k, v in g.items()}
         text = '\n'.join(progen.render(prog))
         try:
             model = parser.parse_script(text)
